@@ -200,6 +200,11 @@ func podCostExt(r *rand.Rand, name string, rate float64) *PodExt {
 	if r.Float64() >= rate {
 		return nil
 	}
+	if r.Float64() < 0.25 {
+		// the fraction of deletionCost/2^27 decides the sign (see fracPairs)
+		fp := pick(r, fracPairs...)
+		return &PodExt{Pod: name, DelCost: i64(fp[0]), Priority: i32(int32(fp[1]))}
+	}
 	switch r.IntN(8) {
 	case 0, 1:
 		return &PodExt{Pod: name, DelCost: i64(-134217728)} // cost exactly 0
@@ -401,10 +406,18 @@ func genRun(method string) func(r *rand.Rand, t core.Tier) any {
 		// one run in seven: per-NodePool price tables; one in twenty: a launch cap below the catalog size
 		if method != "empty" {
 			switch x := r.Float64(); {
+			case x < 0.07:
+				in := genNodeOverlayRun(r, method)
+				decorateLife(r, &in)
+				return in
 			case x < 0.14:
-				return genOverlayRun(r, method)
+				in := genOverlayRun(r, method)
+				decorateLife(r, &in)
+				return in
 			case x < 0.19:
-				return genCapRun(r, method)
+				in := genCapRun(r, method)
+				decorateLife(r, &in)
+				return in
 			}
 		}
 		profile := "mixed"
@@ -517,6 +530,10 @@ func genRun(method string) func(r *rand.Rand, t core.Tier) any {
 						nodes[i].Labels["special"] = "x"
 						nodes[i].Pods[0].NodeSelector = map[string]string{"special": "x"}
 						nodes[i].Pods[0].Required = nil
+						if r.Float64() < 0.5 {
+							// ... and is still starting (bound, phase Pending): as much in need of a home as a running pod
+							podExt = append(podExt, PodExt{Pod: nodes[i].Pods[0].Name, Phase: "Pending"})
+						}
 					}
 				}
 			case 1:
@@ -595,7 +612,9 @@ func genRun(method string) func(r *rand.Rand, t core.Tier) any {
 			pe := PDBExt{App: pick(r, "a", "b", "c"), Allowed: int32(r.IntN(3)), Blocking: r.Float64() < 0.3}
 			if pe.Blocking {
 				pe.Allowed = 0
+				pe.Form = pick(r, "", "", "0%", "100%")
 			}
+			pe.Policy = pick(r, "", "", "IfHealthyBudget", "AlwaysAllow")
 			in.PDBs = append(in.PDBs, pe)
 		}
 		if in.PDBs == nil {
@@ -625,7 +644,74 @@ func genRun(method string) func(r *rand.Rand, t core.Tier) any {
 		if r.Float64() < 0.03 {
 			in.Budget = 0
 		}
+		decorateLife(r, &in)
 		return in
+	}
+}
+
+// decorateLife: bound pods in every phase / readiness, and budgets over unhealthy pods.
+//   - 7 % of the bound pods are still starting (status.phase Pending, PodScheduled=True), 6 % report Ready=False, 2 % both;
+//   - one run in ten: one pod gets its own label, (mostly) reports Ready=False and is selected by a PodDisruptionBudget that
+//     is (mostly) fully blocking by spec — maxUnavailable 0 / "0%" / minAvailable "100%" — with every
+//     unhealthyPodEvictionPolicy (AlwaysAllow: the eviction API evicts the unhealthy pod, so the node stays a candidate
+//     and the pod needs a home like any other; unset / IfHealthyBudget: the node is no candidate).
+//
+// The Labels state how often a command removes a node that hosts such a pod.
+func decorateLife(r *rand.Rand, in *RunIn) {
+	idx := map[string]int{}
+	for i, pe := range in.Pods {
+		idx[pe.Pod] = i
+	}
+	set := func(name string, f func(pe *PodExt)) {
+		i, ok := idx[name]
+		if !ok {
+			in.Pods = append(in.Pods, PodExt{Pod: name})
+			i = len(in.Pods) - 1
+			idx[name] = i
+		}
+		f(&in.Pods[i])
+	}
+	type ref struct{ n, p int }
+	var all []ref
+	for i := range in.Scn.Nodes {
+		for j := range in.Scn.Nodes[i].Pods {
+			p := &in.Scn.Nodes[i].Pods[j]
+			if p.Daemon {
+				continue
+			}
+			if pe, ok := idx[p.Name]; ok && (in.Pods[pe].Phase == "Succeeded" || in.Pods[pe].Phase == "Failed") {
+				continue
+			}
+			all = append(all, ref{i, j})
+			switch x := r.Float64(); {
+			case x < 0.07:
+				set(p.Name, func(pe *PodExt) { pe.Phase = "Pending" })
+			case x < 0.13:
+				set(p.Name, func(pe *PodExt) { pe.NotReady = true })
+			case x < 0.15:
+				set(p.Name, func(pe *PodExt) { pe.Phase, pe.NotReady = "Pending", true })
+			}
+		}
+	}
+	if len(all) > 0 && r.Float64() < 0.10 {
+		t := all[r.IntN(len(all))]
+		p := &in.Scn.Nodes[t.n].Pods[t.p]
+		labels := map[string]string{}
+		for k, v := range p.Labels {
+			labels[k] = v
+		}
+		labels["app"] = "u"
+		p.Labels = labels
+		if r.Float64() < 0.8 {
+			set(p.Name, func(pe *PodExt) { pe.NotReady = true })
+		}
+		pe := PDBExt{App: "u", Blocking: r.Float64() < 0.8, Policy: pick(r, "AlwaysAllow", "AlwaysAllow", "AlwaysAllow", "IfHealthyBudget", "")}
+		if pe.Blocking {
+			pe.Form = pick(r, "", "0%", "100%")
+		} else {
+			pe.Allowed = int32(r.IntN(2))
+		}
+		in.PDBs = append(in.PDBs, pe)
 	}
 }
 
@@ -998,6 +1084,91 @@ func genCapRun(r *rand.Rand, method string) RunIn {
 	in.Scn = world.Scenario{ITs: its, Pools: pools, Nodes: nodes, DaemonSets: []world.DaemonSet{}, Pods: []world.Pod{}, Parallelism: 1, BestEffortMinVal: r.Float64() < 0.15}
 	if r.Float64() < 0.15 {
 		in.Scn.Pods = append(in.Scn.Pods, world.Pod{Name: "pend-0", Labels: map[string]string{"app": "p"}, CPU: int64(100 * (1 + r.IntN(10))), Mem: 64})
+	}
+	return in
+}
+
+// overlayAdjusts: relative and absolute price adjustments whose result stays on the 1/1024 price grid for catalog prices
+// that are multiples of 16/1024 (so that float64 and integer arithmetic agree exactly): percent, price × num / den; amounts, ± delta/1024.
+var overlayAdjusts = []struct {
+	s             string
+	num, den, add int64
+}{{"-25%", 3, 4, 0}, {"-50%", 1, 2, 0}, {"-75%", 1, 4, 0}, {"+50%", 3, 2, 0}, {"+100%", 2, 1, 0}, {"+25%", 5, 4, 0},
+	{"+0.125", 1, 1, 128}, {"-0.0625", 1, 1, -64}, {"-0.25", 1, 1, -256}}
+
+// genNodeOverlayRun: like genOverlayRun, but the per-NodePool prices come from real NodeOverlay objects (one per NodePool,
+// selecting karpenter.sh/nodepool and optionally a capacity type or a set of instance types; mostly RELATIVE
+// priceAdjustments, sometimes an absolute price) evaluated by the real nodeoverlay controller and served by overlay.Decorate
+// on every GetInstanceTypes call — the disruption pass makes several (GetCandidates/BuildNodePoolMap, each scheduling
+// simulation, validation).  Tables = the catalog with each overlay applied exactly once.
+func genNodeOverlayRun(r *rand.Rand, method string) RunIn {
+	in := genOverlayRun(r, method)
+	its := in.Scn.ITs
+	for i := range its {
+		for j := range its[i].Offerings {
+			its[i].Offerings[j].Price = (its[i].Offerings[j].Price + 15) / 16 * 16
+		}
+	}
+	in.Tables = nil
+	for _, p := range in.Scn.Pools {
+		if r.Float64() < 0.2 {
+			continue
+		}
+		ov := OverlayExt{Name: "ov-" + p.Name, Pool: p.Name, Weight: int32(r.IntN(3))}
+		switch x := r.Float64(); {
+		case x < 0.25:
+			ov.CT = pick(r, "spot", "on-demand")
+		case x < 0.45:
+			for _, it := range its {
+				if r.Float64() < 0.5 {
+					ov.ITs = append(ov.ITs, it.Name)
+				}
+			}
+		}
+		num, den, add, abs := int64(1), int64(1), int64(0), int64(-1)
+		if r.Float64() < 0.15 {
+			ov.Price, abs = pick(r, "0.25", "0.5"), 0
+			abs = map[string]int64{"0.25": 256, "0.5": 512}[ov.Price]
+		} else {
+			a := overlayAdjusts[r.IntN(len(overlayAdjusts))]
+			ov.Adjust, num, den, add = a.s, a.num, a.den, a.add
+		}
+		in.Overlays = append(in.Overlays, ov)
+		t := PoolTable{Pool: p.Name}
+		for _, it := range its {
+			c := it
+			c.Offerings = append([]world.Offering{}, it.Offerings...)
+			hitIT := len(ov.ITs) == 0
+			for _, n := range ov.ITs {
+				if n == it.Name {
+					hitIT = true
+				}
+			}
+			if ov.CT != "" {
+				// an overlay selects an instance type by the type's OWN requirements, and a provider lists there the capacity
+				// types it can currently sell (world.BuildIT: those of the available offerings): a type with no available
+				// offering of the capacity type is not selected at all
+				sells := false
+				for _, o := range c.Offerings {
+					if o.CapacityType == ov.CT && o.Available {
+						sells = true
+					}
+				}
+				hitIT = hitIT && sells
+			}
+			for k := range c.Offerings {
+				if !hitIT || (ov.CT != "" && c.Offerings[k].CapacityType != ov.CT) {
+					continue
+				}
+				if abs >= 0 {
+					c.Offerings[k].Price = abs
+				} else {
+					c.Offerings[k].Price = max(0, c.Offerings[k].Price*num/den+add)
+				}
+			}
+			t.ITs = append(t.ITs, c)
+		}
+		in.Tables = append(in.Tables, t)
 	}
 	return in
 }
